@@ -41,6 +41,8 @@ REGISTRY = {
     "C12": ("vsim.engines.mdsim", "exploration", 1500, 40000, 90, 900),
     "C13": ("vsim.engines.mdsim", "exploration", 1500, 40000, 90, 900),
     "C20": ("vsim.engines.mdsim", "exploration", 800, 20000, 90, 900),
+    "C15": ("vsim.engines.evsim15", "exploration", 1500, 30000, 90, 900),
+    "C16": ("vsim.engines.evsim16", "exploration", 3000, 100000, 90, 900),
 }
 
 _RF = ("one run = one seeded history: channel configuration (type cell x rate x cadences x mode, start snapped to a "
@@ -52,6 +54,17 @@ _MD = ("one run = one seeded call-level history on one tree: ascending metadata 
        "writer reopen, reader construction, queries on old and new readers, clock jumps; distinct = distinct trace "
        "digests; non-trivial: >= 3 samples in >= 2 files; ")
 RULES = {
+    "C16": "one run = one limit combination (run index mod 7 over size/count/duration) x 1-3 channels x {RF, metadata} x a "
+           "seeded world script of 10-40 (quick) / 10-120 file actions whose events pass a faulty channel (12% dropped, 15% "
+           "duplicated, 30% delayed by 1-5 steps = reordered / stale) with re-scans, verify passes, direct batches and noise "
+           "events interleaved; invariants after EVERY step, every os.remove judged when issued; non-trivial: >= 1 deletion "
+           "and >= 5 delivered events; distinct = distinct trace digests",
+    "C15": "one run = one handler configuration (include flags incl. None defaults, window) x 80 (quick) / 300 seeded events "
+           "over the bounded path grammar (valid and near-miss channel paths, subdirectories, file names, times at and "
+           "around the window edges; all event kinds; moved events in all src/dest combinations) + in every third run the "
+           "event stream derived from the FS ops of a real recording; each event's outcome compared with the real listing on "
+           "a scratch tree; non-trivial: >= 1 accepted creation; distinct = distinct trace digests. The grammar is sampled, "
+           "not exhausted.",
     "C12": _MD + "every read compared with an ordered-map model",
     "C13": _MD + "after every write every stored group located on disk with raw h5py and compared with exact placement",
     "C20": _MD + "RF writes interleaved in 70% of the runs; whole-tree fingerprint (hash, mtime_ns, inode) around every read-only call",
